@@ -198,7 +198,8 @@ fn frame_with(st: &Step, version: Option<i64>, range_lengths: Option<Vec<Option<
         }
     }
     // style 3: the body pretty-printed (insignificant white space inside the JSON text)
-    let body = if st.hdr == 3 { serde_json::to_string_pretty(&body).expect("json") } else { serde_json::to_string(&body).expect("json") };
+    // (and a final line feed, which is still part of the counted JSON text)
+    let body = if st.hdr == 3 { format!("{}\n", serde_json::to_string_pretty(&body).expect("json")) } else { serde_json::to_string(&body).expect("json") };
     let mut out = match st.hdr {
         1 => format!("Content-Length: {}\r\n{CONTENT_TYPE}\r\n", body.len()),
         2 => format!("{CONTENT_TYPE}Content-Length: {}\r\n\r\n", body.len()),
